@@ -1,6 +1,7 @@
 import Bermuda.Model.Json
 import Bermuda.Model.Ops
 import Bermuda.Model.AllOps
+import Bermuda.Model.AllOps2
 import Bermuda.Spec.C01
 open Lean Bermuda
 
@@ -123,6 +124,190 @@ def op2FromJson (j : Json) : Except String Op2 := do
   | "sliceNth" => return .sliceNth (← (← j.getObjVal? "i").getNat?)
   | _ => return .base (← opFromJson j)
 
+/-! ### `Op3` (request op "chain3"): expressions of `Fn.Ex` travel as JSON arrays
+
+    ["c", pv]   pv = null | true | false | ["i",n] | ["f","n/d"] | ["s","…"] | ["d",[y,m,d]]
+    ["ps"] ["pe"] ["ev"] ["prev"] ["m",attr] ["det",k] ["detget",k,pv] ["ldet",k] ["f",k] ["fget",k,pv]
+    ["has",k] ["year",e] ["month",e] ["day",e] ["adddays",e,n] ["addmonths",e,n] ["daysbetween",a,b]
+    ["devlag"] ["plen"] ["isnone",e] ["not",e] ["neg",e] ["bin",op,a,b] ["if",c,a,b]
+
+the harness compiles the same tree to a Python lambda. -/
+
+def pvalFromJson (j : Json) : Except String Fn.PVal := do
+  if j.isNull then return .none
+  match j with
+  | .bool b => return .bool b
+  | _ =>
+    let a ← j.getArr?
+    if a.size != 2 then throw "pval: want pair"
+    match (← a[0]!.getStr?) with
+    | "i" => return .int (← jInt? a[1]!)
+    | "f" => return .flt (← ratFromJson a[1]!)
+    | "s" => return .str (← a[1]!.getStr?)
+    | "d" => return .date (← Date.fromJson a[1]!)
+    | t => throw s!"pval: bad tag {t}"
+
+def binOpOf : String → Except String Fn.BinOp
+  | "+" => .ok .add | "-" => .ok .sub | "*" => .ok .mul | "/" => .ok .truediv | "//" => .ok .floordiv
+  | "%" => .ok .mod | "<" => .ok .lt | "<=" => .ok .le | ">" => .ok .gt | ">=" => .ok .ge
+  | "==" => .ok .eq | "!=" => .ok .ne | "and" => .ok .and | "or" => .ok .or
+  | o => .error s!"bad operator {o}"
+
+def mattrOf : String → Except String Fn.MAttr
+  | "risk_basis" => .ok .riskBasis | "country" => .ok .country | "currency" => .ok .currency
+  | "reinsurance_basis" => .ok .reinsuranceBasis | "loss_definition" => .ok .lossDefinition
+  | "per_occurrence_limit" => .ok .limit
+  | o => .error s!"bad metadata attribute {o}"
+
+/-- an opaque callable given extensionally: `[[cell, value], …]` looked up by `(metadata, period_start,
+period_end, evaluation_date)` of the argument cell; `null` (the implementation raised, no numbers are
+known) is the callable that always raises -/
+def tableFn (j : Json) : Except String Fn.CellFn := do
+  if j.isNull then return fun _ => .error .other
+  let rows ← (← j.getArr?).toList.mapM fun e => do
+    let a ← e.getArr?
+    if a.size != 2 then throw "table: want [cell, value]"
+    let c ← Cell.fromJson a[0]!
+    return ((c.md, c.ps, c.pe, c.ev), Fn.ofVal (← Val.fromJson a[1]!))
+  return fun c =>
+    match rows.find? (fun r => r.1 == (c.md, c.ps, c.pe, c.ev)) with
+    | some r => .ok r.2
+    | none => .error .keyError     -- the implementation has no number for this cell: NOT a bound of the model
+
+/-- `{name: table, …}` as a function of the name -/
+def tablesFn (j : Json) : Except String (String → Fn.CellFn) := do
+  if j.isNull then return fun _ _ => .error .other
+  let o ← j.getObj?
+  let ts ← o.toList.mapM fun (k, v) => do return (k, ← tableFn v)
+  return fun name =>
+    match ts.find? (fun r => r.1 == name) with
+    | some r => r.2
+    | none => fun _ => .error .keyError
+
+partial def exFromJson (j : Json) : Except String Fn.Ex := do
+  let a ← j.getArr?
+  if a.size == 0 then throw "ex: empty"
+  let tag ← a[0]!.getStr?
+  let arg (i : Nat) : Except String Json := if i < a.size then .ok a[i]! else .error s!"ex {tag}: short"
+  match tag with
+  | "c" => return .const (← pvalFromJson (← arg 1))
+  | "table" => return .opaque (← tableFn (← arg 1))
+  | "ps" => return .cattr .periodStart
+  | "pe" => return .cattr .periodEnd
+  | "ev" => return .cattr .evaluationDate
+  | "prev" => return .cattr .prevEvaluationDate
+  | "m" => return .mattr (← mattrOf (← (← arg 1).getStr?))
+  | "det" => return .detail (← (← arg 1).getStr?)
+  | "detget" => return .detailGet (← (← arg 1).getStr?) (← pvalFromJson (← arg 2))
+  | "ldet" => return .lossDetail (← (← arg 1).getStr?)
+  | "f" => return .field (← (← arg 1).getStr?)
+  | "fget" => return .fieldGet (← (← arg 1).getStr?) (← pvalFromJson (← arg 2))
+  | "has" => return .hasField (← (← arg 1).getStr?)
+  | "year" => return .year (← exFromJson (← arg 1))
+  | "month" => return .month (← exFromJson (← arg 1))
+  | "day" => return .day (← exFromJson (← arg 1))
+  | "adddays" => return .addDays (← exFromJson (← arg 1)) (← exFromJson (← arg 2))
+  | "addmonths" => return .addMonths (← exFromJson (← arg 1)) (← exFromJson (← arg 2))
+  | "daysbetween" => return .daysBetween (← exFromJson (← arg 1)) (← exFromJson (← arg 2))
+  | "devlag" => return .devLag
+  | "plen" => return .periodLength
+  | "isnone" => return .isNone (← exFromJson (← arg 1))
+  | "not" => return .not (← exFromJson (← arg 1))
+  | "neg" => return .neg (← exFromJson (← arg 1))
+  | "bin" => return .bin (← binOpOf (← (← arg 1).getStr?)) (← exFromJson (← arg 2)) (← exFromJson (← arg 3))
+  | "if" => return .ite (← exFromJson (← arg 1)) (← exFromJson (← arg 2)) (← exFromJson (← arg 3))
+  | t => throw s!"ex: bad tag {t}"
+
+def namedExs (j : Json) : Except String (List (String × Fn.Ex)) := do
+  (← j.getArr?).toList.mapM fun e => do
+    let a ← e.getArr?
+    if a.size != 2 then throw "definition: want [name, ex]"
+    return (← a[0]!.getStr?, ← exFromJson a[1]!)
+
+def rdefFromJson (j : Json) : Except String Fn.RDef := do
+  match (← (← j.getObjVal? "name").getStr?) with
+  | "period_start" => return .periodStart (← exFromJson (← j.getObjVal? "e"))
+  | "period_end" => return .periodEnd (← exFromJson (← j.getObjVal? "e"))
+  | "evaluation_date" => return .evaluationDate (← exFromJson (← j.getObjVal? "e"))
+  | "prev_evaluation_date" => return .prevEvaluationDate (← exFromJson (← j.getObjVal? "e"))
+  | "values" => return .values (← (← j.getObjVal? "spread").getBool?) (← namedExs (← j.getObjVal? "items"))
+  | "metadata" => return .metadata (← Metadata.fromJson (← j.getObjVal? "m"))
+  | _ => return .unknown (← exFromJson (← j.getObjVal? "e"))
+
+def op3FromJson (j : Json) : Except String Op3 := do
+  match (← (← j.getObjVal? "op").getStr?) with
+  | "deriveFields" => return .deriveFields (← namedExs (← j.getObjVal? "defs"))
+  | "deriveMetadataFn" => return .deriveMetadataFn (← namedExs (← j.getObjVal? "defs"))
+  | "replaceFn" => return .replaceFn (← (← (← j.getObjVal? "defs").getArr?).toList.mapM rdefFromJson)
+  | "filterFn" => return .filterFn (← exFromJson (← j.getObjVal? "pred"))
+  | "union" => return .union (← cellsFromJson (← j.getObjVal? "b"))
+  | "inter" => return .inter (← cellsFromJson (← j.getObjVal? "b"))
+  | "diff" => return .diff (← cellsFromJson (← j.getObjVal? "b"))
+  | "symdiff" => return .symdiff (← cellsFromJson (← j.getObjVal? "b"))
+  | "sum" => return .sum (← (← (← j.getObjVal? "ts").getArr?).toList.mapM cellsFromJson)
+  | "cellAt" => return .cellAt (← jInt? (← j.getObjVal? "i"))
+  | "loosePeriodMerge" =>
+    let suffix ← match optField j "suffix" with
+      | some v => (v.getStr?).map some
+      | none => pure none
+    return .loosePeriodMerge (← cellsFromJson (← j.getObjVal? "b")) suffix
+  | "shiftOrigin" => return .shiftOrigin (← cellsFromJson (← j.getObjVal? "b"))
+  | "wideRoundTrip" =>
+    return .wideRoundTrip (← strListJ (← j.getObjVal? "field_cols")) (← strListJ (← j.getObjVal? "detail_cols"))
+      (← strListJ (← j.getObjVal? "loss_detail_cols"))
+  | "longRoundTrip" => return .longRoundTrip (← strListJ (← j.getObjVal? "loss_detail_cols"))
+  | "arrayRoundTrip" =>
+    return .arrayRoundTrip (← (← j.getObjVal? "field").getStr?) (← Metadata.fromJson (← j.getObjVal? "md"))
+      (← optInt? j "res")
+  | "matrixRoundTrip" => return .matrixRoundTrip
+  | "dropOffDiagonals" => return .dropOffDiagonals
+  | "toSlice" => return .toSlice
+  | "sliceToTriangle" => return .sliceToTriangle
+  | "makePredTriangleWithInit" =>
+    let pred ← match optField j "pred" with
+      | some v => (cellsFromJson v).map some
+      | none => pure none
+    return .makePredTriangleWithInit { pred := pred, maxDevLag := ← resOf j "maxDevLag", evalRes := ← resOf j "evalRes",
+                                       maxEval := ← optDate? j "maxEval" }
+  | "disaggDev" =>
+    return .disaggregateDevelopment { res := ← jInt? (← j.getObjVal? "res"), fields := ← optStrListF j "fields",
+                                      extrapolate := ← (← j.getObjVal? "extrapolate").getBool? }
+      (← tablesFn (← j.getObjVal? "vals"))
+  | "disagg" =>
+    let weights ← match optField j "weights" with
+      | some v => do
+        let a ← v.getArr?
+        pure (some (← a.toList.mapM fun x => do
+          match x.getInt? with
+          | .ok i => pure (Units.Num.int i)
+          | .error _ => pure (Units.Num.flt (← ratFromJson x))))
+      | none => pure none
+    return .disaggregate (← (← j.getObjVal? "resExp").getNat?) weights
+      { res := ← jInt? (← j.getObjVal? "res"), fields := ← optStrListF j "fields",
+        extrapolate := ← (← j.getObjVal? "extrapolate").getBool? }
+      (← tablesFn (← j.getObjVal? "vals"))
+  | "weightGeometricDecay" =>
+    let fields ← match optField j "fields" with
+      | none => pure Fn.FieldsArg.none
+      | some (.str s) => pure (Fn.FieldsArg.one s)
+      | some v => (strListJ v).map Fn.FieldsArg.many
+    let a : Fn.DecayArgs := {
+      factorIsFloat := ← (← j.getObjVal? "isFloat").getBool?, factor := ← ratFromJson (← j.getObjVal? "factor"),
+      basis := ← (← j.getObjVal? "basis").getStr?, fields := fields,
+      weightAsField := ← (← j.getObjVal? "asField").getBool? }
+    return .weightGeometricDecay a (← tableFn (← j.getObjVal? "w")) (← tablesFn (← j.getObjVal? "scaled"))
+  | "paidBs" =>
+    return .paidBsAdjustment (← cellsFromJson (← j.getObjVal? "ult")) (← tableFn (← j.getObjVal? "dr"))
+      (← tableFn (← j.getObjVal? "pl"))
+  | "reportedBs" =>
+    let method ← match optField j "method" with
+      | some v => (v.getStr?).map some
+      | none => pure none
+    let trendOk ← (← j.getObjVal? "trendOk").getBool?
+    return .reportedBsAdjustment method (← tablesFn (← j.getObjVal? "first")) (← tablesFn (← j.getObjVal? "second"))
+      (if trendOk then .ok () else .error .other)
+  | _ => return .base (← op2FromJson j)
+
 /-- Spec verdicts on an implementation output (absent when the implementation raised) -/
 def specJson (j : Json) : Except String Json := do
   match j.getObjVal? "impl" with
@@ -159,6 +344,16 @@ def handle (j : Json) : Except String Json := do
     let ops ← (← (← j.getObjVal? "ops").getArr?).toList.mapM op2FromJson
     let r := match Triangle.ofCells cells with
       | .ok t => run2 t ops
+      | .error e => .error e
+    return Json.mkObj [("model", exceptToJson cellsToJson r), ("spec", ← specJson j)]
+  | "cellAt" =>
+    let cells ← cellsFromJson (← j.getObjVal? "cells")
+    return Json.mkObj [("model", exceptToJson Cell.toJson (Fn.cellAt cells (← jInt? (← j.getObjVal? "i"))))]
+  | "chain3" =>
+    let cells ← cellsFromJson (← j.getObjVal? "cells")
+    let ops ← (← (← j.getObjVal? "ops").getArr?).toList.mapM op3FromJson
+    let r := match Triangle.ofCells cells with
+      | .ok t => run3 t ops
       | .error e => .error e
     return Json.mkObj [("model", exceptToJson cellsToJson r), ("spec", ← specJson j)]
   | o => throw s!"unknown op {o}"
